@@ -1276,3 +1276,48 @@ package moss
 //@   modifies *
 //@   unlock 1: @emptied m.stackDirtyTop == nil && m.latestSnapshot == nil
 //@   unlock 1: @woken atAcquire(m.stackDirtyTop) != nil ==> signalled(m.stackDirtyTopCond)
+
+// ---- loading a persisted segment (C04, C19, C01) -------------------------------------------------------------
+
+//@ func ByteSliceToUint64Slice(in []byte) ([]uint64, error)
+//@   trusted unsafe reinterpretation of the mapped bytes as little-endian words: len(in)/8 words over the same memory
+//@   ensures r1 == nil && len(r0) == len(in) / 8 && (in != nil ==> r0 != nil)
+
+// The loaded segment views exactly the byte ranges the location names, and
+// its buf is non-nil even when the segment has no key/value bytes (the read
+// path tells "found" from "absent" by val != nil).
+//@ func loadBasicSegment(sloc *SegmentLoc) (Segment, error)
+//@   props C04 C19 C01 C10
+//@   requires sloc != nil && sloc.mref != nil && sloc.mref.buf != nil && sloc.KvsOffset <= sloc.BufOffset && sloc.BufOffset <= 4611686018427387904 && sloc.BufBytes <= 4611686018427387904 && sloc.KvsBytes <= 4611686018427387904
+//@   ensures @type r1 == nil ==> typeIs(r0, "*segment") && ptrOf(r0, "*segment") != nil && fresh(ptrOf(r0, "*segment"))
+//@   ensures @bufNonNil r1 == nil ==> ptrOf(r0, "*segment").buf != nil
+//@   ensures @buf r1 == nil ==> len(ptrOf(r0, "*segment").buf) == sloc.BufBytes &&
+//@       (sloc.BufBytes > 0 ==> arr(ptrOf(r0, "*segment").buf) == arr(sloc.mref.buf) && off(ptrOf(r0, "*segment").buf) == off(sloc.mref.buf) + (sloc.BufOffset - sloc.KvsOffset))
+//@   ensures @kvs r1 == nil ==> len(ptrOf(r0, "*segment").kvs) == sloc.KvsBytes / 8
+//@   ensures @totals r1 == nil ==> ptrOf(r0, "*segment").totOperationSet == sloc.TotOpsSet && ptrOf(r0, "*segment").totOperationDel == sloc.TotOpsDel &&
+//@       ptrOf(r0, "*segment").totKeyByte == sloc.TotKeyByte && ptrOf(r0, "*segment").totValByte == sloc.TotValByte
+
+// ---- heap iterator: reading the entry on top (C08, C09) --------------------------------------------------------------
+
+//@ pure opaque func curAt(it *iterator, i int) *cursor = it.cursors[i]
+//@ pure func iterOK(it *iterator) bool = it != nil && it.ss != nil && stackOK(it.ss) && (it.iteratorOptions.base != nil ==> stackOK(it.iteratorOptions.base)) &&
+//@     (forall i int :: 0 <= i && i < len(it.cursors) ==> curAt(it, i) != nil && -1 <= curAt(it, i).ssIndex && curAt(it, i).ssIndex < len(it.ss.a) &&
+//@         (curAt(it, i).op == OperationMerge ==> curAt(it, i).ssIndex >= 0))
+
+//@ func (iter *iterator) CurrentEx() (entryEx EntryEx, key, val []byte, err error)
+//@   props C09 C08
+//@   requires iterOK(iter)
+//@   ensures @done len(iter.cursors) == 0 ==> err == ErrIteratorDone && key == nil && val == nil
+//@   ensures @top len(iter.cursors) > 0 ==> err == nil && entryEx.Operation == curAt(iter, 0).op && key == curAt(iter, 0).k && val == curAt(iter, 0).v
+
+// A Merge entry on top of the heap is resolved against everything older than
+// the segment it came from (then the base stack, else the lower level): the
+// operand is applied once, on top of what the older levels yield.
+//@ func (iter *iterator) Current() ([]byte, []byte, error)
+//@   props C08 C09
+//@   requires iterOK(iter)
+//@   ensures @done len(iter.cursors) == 0 ==> r2 == ErrIteratorDone
+//@   ensures @del len(iter.cursors) > 0 && curAt(iter, 0).op == OperationDel ==> r0 == nil && r1 == nil && r2 == nil
+//@   ensures @merge len(iter.cursors) > 0 && curAt(iter, 0).op == OperationMerge && r2 == nil ==> r0 == curAt(iter, 0).k &&
+//@       r1 == fullMerge(moOf(iter.ss), curAt(iter, 0).k, readFrom(iter.ss, curAt(iter, 0).ssIndex - 1, curAt(iter, 0).k, iter.iteratorOptions.base, false), curAt(iter, 0).v)
+//@   ensures @set len(iter.cursors) > 0 && curAt(iter, 0).op != OperationDel && curAt(iter, 0).op != OperationMerge ==> r0 == curAt(iter, 0).k && r1 == curAt(iter, 0).v && r2 == nil
